@@ -266,3 +266,28 @@ mut('c03-list-filter-falsy', 'C03', 'R03.2', ('utils/clazz.py', "        return 
 mut('c03-new-raw-splice', 'C03', 'R03.1', ('parameter.py', "        return repr_from_instantiation(self.value)", "        if isinstance(self.value, str):\n            return '\"' + self.value + '\"'\n        return repr_from_instantiation(self.value)"))
 mut('c03-auto-repr-raw-values', 'C03', 'R03.1', ('parameter.py', "        args_repr = ', '.join(f'{k}={repr(v)}' for k, v in sorted(args.items()))", "        args_repr = ', '.join(f'{k}={v}' for k, v in sorted(args.items()))"))
 mut('c03-value-repr-bypass', 'C03', 'R03.2', ('parameter.py', "        return repr_from_instantiation(self.value)", "        return str(type(self.value).__name__)"))
+
+# ---------------------------------------------------------------------------------------------- C01
+mut('c01-load-without-exists', 'C01', 'R01.1', ('task.py', "if self._data and self._data.is_persisting and self._data.exists() and not self._forced:", "if self._data and self._data.is_persisting and not self._forced:"))
+mut('c01-forced-ignored', 'C01', 'R01.1', ('task.py', "self._data.exists() and not self._forced:", "self._data.exists():"))
+mut('c01-prefix-first-pass-sharing', 'C01', 'R01.6', ('chain.py', "task_registry=None if self._parameter_mode else self._task_registry", "task_registry={} if self._parameter_mode else self._task_registry"))
+mut('c01-first-pass-shared-registry', 'C01', 'R01.6', ('chain.py', "task_registry=None if self._parameter_mode else self._task_registry", "task_registry=self._task_registry"))
+mut('c01-key-params-only', 'C01', 'R01.2', ('chain.py', "        return sha256(f'{parameter_repr}$$${input_tasks_repr}'.encode()).hexdigest()[:32]", "        return sha256(f'{parameter_repr}$$$'.encode()).hexdigest()[:32]"))
+mut('c01-key-inputs-only', 'C01', 'R01.2', ('chain.py', "        return sha256(f'{parameter_repr}$$${input_tasks_repr}'.encode()).hexdigest()[:32]", "        return sha256(f'$$${input_tasks_repr}'.encode()).hexdigest()[:32]"))
+mut('c01-input-keys-empty', 'C01', 'R01.2', ('chain.py', "        self.input_tasks = {\n            name: task.get_config().get_name_for_persistence(task)\n            for name, task in input_tasks.items()\n            if isinstance(task, Task)\n        }", "        self.input_tasks = {}"))
+mut('c01-input-keys-are-names', 'C01', 'R01.2', ('chain.py', "            name: task.get_config().get_name_for_persistence(task)\n", "            name: task.slugname\n"))
+mut('c01-first-pass-inputs', 'C01', 'R01.2', ('chain.py', "            input_tasks = {n: _get_task(n, t) for n, t in _task.input_tasks.items() if isinstance(t, Task)}", "            input_tasks = {n: t for n, t in _task.input_tasks.items() if isinstance(t, Task)}\n            for n, t in input_tasks.items():\n                _get_task(n, t)"))
+mut('c01-first-input-only', 'C01', 'R01.2', ('chain.py', "        input_tasks_repr = '###'.join(_get_input_task_repr(n, it) for n, it in sorted(self.input_tasks.items()))", "        input_tasks_repr = '###'.join(_get_input_task_repr(n, it) for n, it in sorted(self.input_tasks.items())[:1])"))
+mut('c01-registry-skips-underscore', 'C01', 'R01.2', ('parameter.py', "            repr = parameter.repr\n            if repr is not None:", "            repr = parameter.repr\n            if repr is not None and not name.startswith('_'):"))
+mut('c01-registry-key-slug-only', 'C01', 'R01.3', ('chain.py', "            key = task.slugname, task.name_for_persistence", "            key = task.slugname, task.fullname"))
+mut('c01-param-by-name-not-config-name', 'C01', 'R01.4', ('parameter.py', "        if self.name_in_config in config:\n            value = config[self.name_in_config]", "        if self.name_in_config in config:\n            value = config[self.name]"))
+mut('c01-tpc-copies-by-name', 'C01', 'R01.4', ('chain.py', "                self._data[parameter.name_in_config] = original_config[parameter.name_in_config]", "                self._data[parameter.name_in_config] = original_config.get(parameter.name)"))
+mut('c01-run-args-positional', 'C01', 'R01.5', ('task.py', "            parameter_arg = self.parameters[arg] if arg in self.parameters else NO_VALUE", "            parameter_arg = list(self.parameters.values())[len(args)].value if arg in self.parameters else NO_VALUE"))
+mut('c01-no-deepcopy', 'C01', 'R01.7', ('task.py', "            parameters = [p for p in deepcopy(parameters) if isinstance(p, Parameter)]", "            parameters = [p for p in parameters if isinstance(p, Parameter)]"))
+mut('c01-set-values-base-config', 'C01', 'R01.4', ('task.py', "        self.parameters.set_values(self._config)", "        self.parameters.set_values(self._config.get_original_config())"))
+
+ben('ben-c01-guard-nested', ['C01', 'C07', 'C04'], ('task.py', "        if self._data and self._data.is_persisting and self._data.exists() and not self._forced:\n            self._data.load(self.data_type)\n        else:",
+                                              "        can_load = self._data and self._data.is_persisting and not self._forced\n        if can_load and self._data.exists():\n            self._data.load(self.data_type)\n        else:"))
+ben('ben-c01-deepcopy-first', ['C01'], ('task.py', "            parameters = [p for p in deepcopy(parameters) if isinstance(p, Parameter)]", "            parameters = deepcopy(parameters)\n            parameters = [p for p in parameters if isinstance(p, Parameter)]"))
+ben('ben-c01-set-value-get', ['C01', 'C09'], ('parameter.py', "        if self.name_in_config in config:\n            value = config[self.name_in_config]\n        else:\n            if self.required:\n                raise ValueError(f'Value for parameter `{self}` not found in config `{config}`')\n            value = self.default",
+                                              "        if self.name_in_config not in config:\n            if self.required:\n                raise ValueError(f'Value for parameter `{self}` not found in config `{config}`')\n            value = self.default\n        else:\n            value = config[self.name_in_config]"))
